@@ -99,7 +99,10 @@ type graph struct {
 	syn    map[string]int
 	roots  map[string]int
 	panics []string
+	capped bool // more than maxNodes objects: expansion stopped (the closure is not a fixpoint)
 }
+
+const maxNodes = 200_000
 
 func safeGetAttr(o object.Object, name string) (a object.Object, ok bool, panicked string) {
 	defer func() {
@@ -163,6 +166,10 @@ func buildGraph(globals map[string]any, alphabet []string) *graph {
 		n := g.nodes[i]
 		if n.synth {
 			continue
+		}
+		if len(g.nodes) > maxNodes {
+			g.capped = true
+			break
 		}
 		mod, isMod := n.obj.(*object.Module)
 		for _, name := range alphabet {
